@@ -1,0 +1,75 @@
+//go:build verif
+
+// Verification contracts for package datastore (comment-only; compiled only with -tags verif).
+// Read by /verif/cmd/gvc; see /verif/DESIGN.md for the contract language.
+
+package datastore
+
+// ---------------------------------------------------------------------------
+// ghost trace events: the only ways state outside the process changes
+
+//@ event SbiSet()
+//@ event CacheModify(Int, string, Int)
+
+// assumed: the cache client performs one store modification per call (store, owner, priority as given)
+//@ iface (cache.Client).Modify
+//@   params ctx name opts dels upds
+//@   emits CacheModify(opts.Store, opts.Owner, opts.Priority)
+
+// assumed: the target performs one southbound set per call
+//@ iface (datastore/target.Target).Set
+//@   params ctx source
+//@   emits SbiSet()
+
+// ---------------------------------------------------------------------------
+// C03 / C07: the single place where the device is written
+
+//@ func (*Datastore).applyIntent
+//@   props C03 C07
+//@   requires d != nil && d.config != nil
+//@   let n0 = ntrace()
+//@   modifies trace
+//@   ensures not_connected_is_error: d.sbi == nil ==> r1 != nil && r0 == nil && ntrace() == n0
+//@   ensures one_set: d.sbi != nil ==> ntrace() == n0 + 1 && emitted(n0) == SbiSet
+//@   ensures error_has_no_response: r1 != nil ==> r0 == nil
+
+// ---------------------------------------------------------------------------
+// C03 / C07 / C05: effect ordering of one transaction run
+//   trace = [] on rejection, dry run and every error before the device is written;
+//   otherwise [SbiSet] ++ INTENDED modifies (one per new intent, owner and priority of that intent)
+//             ++ [CONFIG modify] ++ [TimerStart unless rollback], cut at the first error.
+
+//@ func (*Datastore).lowlevelTransactionSet
+//@   props C03 C07
+//@   requires d != nil && d.config != nil && d.cacheClient != nil && inv_Transaction(transaction)
+//@   nosafety the claims are about effect ordering; panics end the run without further effects (no-panic is property C20)
+//@   let n0 = ntrace()
+//@   let INTENDED = 2
+//@   let CONFIG = 0
+//@   ensures dryrun_changes_nothing [C03]: dryRun ==> ntrace() == n0
+//@   internal rejected_changes_nothing [C03]: called(HasErrors) && callres(HasErrors) ==> ntrace() == n0 && r1 == nil && r0 != nil
+//@   internal failed_apply_persists_nothing [C07]: called(applyIntent) && callres(applyIntent, 0, 1) != nil ==> r1 != nil && ntrace() <= n0 + 1
+//@   ensures device_first [C03 C07]: ntrace() > n0 ==> emitted(n0) == SbiSet
+//@   ensures device_written_once [C03 C07]: forall(i, n0 + 1, ntrace(), emitted(i) != SbiSet)
+//@   ensures only_modifies_after_device [C07]: forall(i, n0 + 1, ntrace(), isev(emitted(i), CacheModify) || (i == ntrace() - 1 && isev(emitted(i), TimerStart)))
+//@   ensures stores_touched [C07 C02]: forall(i, n0 + 1, ntrace(), isev(emitted(i), CacheModify) ==>
+//@            evarg(emitted(i), CacheModify, 0) == INTENDED || evarg(emitted(i), CacheModify, 0) == CONFIG)
+//@   ensures running_mirror_last [C07]: forall(i, n0 + 1, ntrace(), isev(emitted(i), CacheModify) && evarg(emitted(i), CacheModify, 0) == CONFIG ==>
+//@            forall(j, i + 1, ntrace(), !isev(emitted(j), CacheModify)))
+//@   ensures success_persists_and_mirrors [C03 C07]: r1 == nil && ntrace() > n0 ==>
+//@            exists(i, n0 + 1, ntrace(), isev(emitted(i), CacheModify) && evarg(emitted(i), CacheModify, 0) == CONFIG)
+//@   ensures error_after_store_failure [C07]: r1 == nil && ntrace() > n0 ==> ntrace() >= n0 + 2
+//@   ensures timer_only_on_success [C06 C05]: forall(i, n0, ntrace(), isev(emitted(i), TimerStart) ==> r1 == nil && i == ntrace() - 1 && !transaction.isRollback && emitted(i) == TimerStart(transaction.timer))
+//@   ensures no_timer_for_rollback [C05]: transaction.isRollback ==> forall(i, n0, ntrace(), !isev(emitted(i), TimerStart))
+//@   ensures success_arms_timer [C06]: r1 == nil && ntrace() > n0 && !transaction.isRollback && transaction.timer != nil ==> emitted(ntrace() - 1) == TimerStart(transaction.timer)
+//@   ensures intended_writes_name_new_intents [C02 C07]: forall(i, n0 + 1, ntrace(), isev(emitted(i), CacheModify) && evarg(emitted(i), CacheModify, 0) == INTENDED ==>
+//@            present(transaction.newIntents, evarg(emitted(i), CacheModify, 1)) &&
+//@            evarg(emitted(i), CacheModify, 2) == transaction.newIntents[evarg(emitted(i), CacheModify, 1)].priority)
+//@   loop 0 invariant ntrace() == n0 && inv_Transaction(transaction)
+//@   loop 1 invariant ntrace() == n0 && inv_Transaction(transaction)
+//@   loop 2 invariant ntrace() == n0 && inv_Transaction(transaction)
+//@   loop 3 invariant inv_Transaction(transaction) && $map == transaction.newIntents && !dryRun
+//@   loop 3 invariant ntrace() >= n0 + 1 && emitted(n0) == SbiSet
+//@   loop 3 invariant forall(i, n0 + 1, ntrace(), isev(emitted(i), CacheModify) && evarg(emitted(i), CacheModify, 0) == INTENDED &&
+//@            present(transaction.newIntents, evarg(emitted(i), CacheModify, 1)) &&
+//@            evarg(emitted(i), CacheModify, 2) == transaction.newIntents[evarg(emitted(i), CacheModify, 1)].priority)
